@@ -26,6 +26,80 @@ func init() {
 		ruleM9(c, "C19.M9")
 		// what the server announces must get past the decoder
 		ruleXdrBounds(c, "C19.M10", "args")
+		// a request within the announced limits is carried out in full: the allocating primitives say "none"
+		// only when the allocator has none
+		ruleAllocRefusal(c, "C19.M11")
+		// a name of every admitted length (0..name_max) comes back from the directory as it went in
+		ruleW3(c, "C19.M12")
+	}
+}
+
+// ruleAllocRefusal: AllocBlock and AllocINum hand on what the in-memory
+// allocator answered.  A "safety net" that answers "no block" for another
+// reason (the log is getting full, a quota) turns a request that the announced
+// limits admit into a short write that is reported as a success, or into
+// NOSPC on a disk with free space: wtmax already sets the log room aside.
+func ruleAllocRefusal(c *Ctx, id string) {
+	V, P, R := c.V, c.P, c.R
+	R.Rule(id, "allocation is refused only when the allocator refuses: every value AllocBlock / AllocINum return is the number alloc.AllocNum answered; a constant 'none' is returned only on the side where that answer was 0", 2)
+	for _, f := range []*ssa.Function{V.AllocBlock, V.AllocINum} {
+		if f == nil || V.AllocNum == nil {
+			continue
+		}
+		R.Analysed[FuncName(f)] = true
+		var anum []ssa.Value
+		for _, sc := range scopesOf(f) {
+			for _, ci := range P.CallsIn(sc.Fn, funcIs(V.AllocNum)) {
+				if v, ok := ci.(ssa.Value); ok {
+					anum = append(anum, v)
+				}
+			}
+		}
+		fromAlloc := func(v ssa.Value) bool {
+			for s := range bwdAll(v) {
+				for _, a := range anum {
+					if s == a {
+						return true
+					}
+				}
+			}
+			return false
+		}
+		ok, why, n := true, "", 0
+		for _, rs := range returnSources(f, 0) {
+			n++
+			v := stripConv(rs.Val)
+			if k, isk := constInt(v); isk {
+				g := k == 0 && guardedBy(f, rs.From, func(cd Cond) (bool, bool) {
+					if cd.Y == nil {
+						return false, false
+					}
+					x, y, op := stripConv(cd.X), stripConv(cd.Y), cd.Op
+					if _, isC := x.(*ssa.Const); isC {
+						x, y = y, x
+					}
+					kk, isk2 := constInt(y)
+					if !isk2 || kk != 0 || !fromAlloc(x) {
+						return false, false
+					}
+					switch op {
+					case token.EQL:
+						return true, true
+					case token.NEQ:
+						return true, false
+					}
+					return false, false
+				})
+				if !g {
+					ok, why = false, fmt.Sprintf("the constant %d is returned on a path where the allocator was not asked or had answered a number", k)
+				}
+				continue
+			}
+			if !fromAlloc(v) {
+				ok, why = false, "a value that is not the allocator's answer is returned"
+			}
+		}
+		R.Check(ok && n > 0 && len(anum) > 0, id, FuncName(f)+"|answers what the allocator answered", P.Pos(f.Pos()), "every result is alloc.AllocNum's answer (0 = none only when the allocator said so)", fmt.Sprintf("%d return sources, %d allocator calls", n, len(anum)), why+": a request within the announced limits gets 'no space' (or a short write reported as OK) although the disk has room")
 	}
 }
 
